@@ -39,9 +39,12 @@ theorem single_field_frame (u : Updater) (now v : Val) (p : String) (rest : List
 
 /-! ### $unset, $inc, $min/$max, $pop, $rename -/
 
+/-- `$unset` removes the (first) entry of the field: afterwards the field is gone — provided the
+    document did not hold the key twice — and every other field reads as before. -/
 theorem unset_removes (now v : Val) (f : String) (fs : Fields) :
-    runUpdater .unset now (.doc fs) f v = .ok (.doc (derase f fs)) ∧ dget f (derase f fs) = none ∨
-    (∃ k, k ∈ dkeys fs ∧ k = f ∧ (dkeys fs).count f > 1) :=
+    runUpdater .unset now (.doc fs) f v = .ok (.doc (derase f fs)) ∧
+    ((dkeys fs).count f ≤ 1 → dget f (derase f fs) = none) ∧
+    (∀ k, k ≠ f → dget k (derase f fs) = dget k fs) :=
   Proofs.C02.unset_removes now v f fs
 
 /-- `$inc` adds to the current number, a missing field counting as 0; ints stay ints. -/
@@ -77,12 +80,20 @@ theorem pySlice_split (xs : List Val) (i : Int) :
   Proofs.C02.pySlice_split xs i
 
 /-- `$push` with `$each` (and optionally `$position`) inserts the new elements as one block and
-    keeps the order of the old ones: the result is `old.take k ++ each ++ old.drop k`. -/
+    keeps the order of the old ones: the result is `old.take k ++ each ++ old.drop k` for a
+    position `k` inside the old list. -/
 theorem push_keeps_order (xs es : List Val) (pos : Option Int) :
-    ∃ k, pushValue (.arr xs) (.doc (("$each", .arr es) ::
+    ∃ k, k ≤ xs.length ∧ pushValue (.arr xs) (.doc (("$each", .arr es) ::
         (match pos with | some p => [("$position", .int p)] | none => []))) =
       .ok (.arr (xs.take k ++ es ++ xs.drop k)) :=
   Proofs.C02.push_keeps_order xs es pos
+
+/-- … and the position is the Python one: `old[0:p] + each + old[p:]` (negative `p` counts from
+    the end, out-of-range `p` is clamped). -/
+theorem push_position_spec (xs es : List Val) (p : Int) :
+    pushValue (.arr xs) (.doc [("$each", .arr es), ("$position", .int p)]) =
+      .ok (.arr (pySlice xs (some 0) (some p) ++ es ++ pySlice xs (some p) none)) :=
+  Proofs.C02.push_position_spec xs es p
 
 /-- a plain `$push` appends -/
 theorem push_appends (xs : List Val) (v : Val) (h : ∀ fs, v = .doc fs → dget "$each" fs = none) :
@@ -117,12 +128,13 @@ theorem pull_spec (v : Val) (xs : List Val) (hv : isScalar v = true) (hx : xs.al
 
 /-! ### replacement, untouched fields, server versions -/
 
-/-- A replacement yields `_id` followed by the replacement's fields. -/
+/-- A replacement yields `_id` followed by the replacement's fields (the kept `_id` must be `==`
+    to itself, which every value without duplicate keys is: see the example at the end). -/
 theorem replace_spec (doc : Fields) (existing : Fields) (id : Val)
-    (hid : dget "_id" existing = some id) (hn : dget "_id" doc = none)
+    (hid : dget "_id" existing = some id) (hrefl : pyEq id id = true) (hn : dget "_id" doc = none)
     (hd : doc.all (fun kv => !kv.1.startsWith "$") = true) (hk : (dkeys doc).Nodup) :
     replaceWhole doc (.doc existing) = .ok (.doc (("_id", id) :: doc)) :=
-  Proofs.C02.replace_spec doc existing id hid hn hd hk
+  Proofs.C02.replace_spec doc existing id hid hrefl hn hd hk
 
 /-- **Every top-level field the specification does not address is left untouched**, for any
     operator update that succeeds. -/
@@ -132,6 +144,18 @@ theorem untouched_fields (spec now : Val) (wasInsert : Bool) (u : Fields) (fs fs
     ∀ k, k ∉ addressed u → dget k fs' = dget k fs :=
   Proofs.C02.untouched_fields spec now wasInsert u fs fs' hu hne h
 
+/-- … and a successful operator update of a document always yields a document (so the `.doc fs'`
+    shape in `untouched_fields` and `single_field_frame` is no restriction). -/
+theorem update_stays_document (spec now : Val) (wasInsert : Bool) (u : Fields) (fs : Fields) (d' : Val)
+    (hu : u.all (fun kv => kv.1.startsWith "$") = true) (hne : u ≠ [])
+    (h : applyUpdate spec (.doc u) now wasInsert (.doc fs) = .ok d') : ∃ fs', d' = .doc fs' :=
+  Proofs.C02.update_stays_document spec now wasInsert u fs d' hu hne h
+
+theorem single_field_stays_document (u : Updater) (now v : Val) (p : String) (rest : List String)
+    (fs : Fields) (d' : Val) (h : updateSingleField u now v (p :: rest) (.doc fs) = .ok d') :
+    ∃ fs', d' = .doc fs' :=
+  Proofs.C02.single_field_stays_document u now v p rest fs d' h
+
 /-- Before server 5.0 an empty operator document is a write error; from 5.0 on it is accepted
     (and does nothing). -/
 theorem empty_operator (fs : Fields) (op : String) (hop : updaterKeys.contains op = true)
@@ -140,10 +164,83 @@ theorem empty_operator (fs : Fields) (op : String) (hop : updaterKeys.contains o
     emptyOperatorCheck { preV5 := false } fs = .ok () :=
   Proofs.C02.empty_operator fs op hop h
 
-/-- non-vacuity: a `$set` through a missing sub-document and past the end of an array -/
+/-! ### non-vacuity: one concrete instance per group -/
+
+/-- result of a model call equals the expected value (structural equality) -/
+private def okIs (r : R Val) (v : Val) : Bool :=
+  match r with
+  | .ok x => x == v
+  | .error _ => false
+
+/-- `$set` group: a `$set` through a missing sub-document and past the end of an array; the path
+    is `writable` and afterwards reads the value (hypotheses and conclusion of `set_get`) -/
 example : (match updateSingleField .set .null (.int 7) ["a", "l", "3"]
       (.doc [("_id", .int 1), ("a", .doc [("l", .arr [.int 0])])]) with
     | .ok d' => d' == .doc [("_id", .int 1), ("a", .doc [("l", .arr [.int 0, .null, .null, .int 7])])]
     | .error _ => false) = true := by decide +kernel
+
+example : writable ["a", "l", "3"] (.doc [("_id", .int 1), ("a", .doc [("l", .arr [.int 0])])]) = true ∧
+    writable ["b", "c", "d"] (.doc [("_id", .int 1)]) = true ∧
+    writable ["a", "x"] (.doc [("a", .int 1)]) = false := by decide +kernel
+
+example : (getPath ["a", "l", "3"]
+      (.doc [("_id", .int 1), ("a", .doc [("l", .arr [.int 0, .null, .null, .int 7])])])
+    == some (.int 7)) = true := by decide +kernel
+
+example : okIs (runUpdater .set .null (.arr [.int 0]) (toString 3) (.int 7))
+    (.arr [.int 0, .null, .null, .int 7]) = true := by decide +kernel
+
+/-- `$unset/$inc/$min/$max/$pop/$rename` group -/
+example : okIs (runUpdater .inc .null (.doc [("_id", .int 1), ("n", .int 2)]) "n" (.int 5))
+      (.doc [("_id", .int 1), ("n", .int 7)]) = true ∧
+    okIs (runUpdater .unset .null (.doc [("_id", .int 1), ("n", .int 2)]) "n" (.str ""))
+      (.doc [("_id", .int 1)]) = true ∧
+    okIs (runUpdater .max .null (.doc [("n", .int 2)]) "n" (.int 5)) (.doc [("n", .int 5)]) = true ∧
+    okIs (runUpdater .min .null (.doc [("n", .int 2)]) "n" (.int 5)) (.doc [("n", .int 2)]) = true ∧
+    okIs (runUpdater .pop .null (.doc [("l", .arr [.int 1, .int 2, .int 3])]) "l" (.int (-1)))
+      (.doc [("l", .arr [.int 2, .int 3])]) = true ∧
+    okIs (renameFields (.doc [("a", .str "b")]) (.doc [("a", .int 1), ("c", .int 2)]))
+      (.doc [("c", .int 2), ("b", .int 1)]) = true := by decide +kernel
+
+/-- array group: `$position: -1` inserts before the last element; `$slice: -2` keeps the last two;
+    `$addToSet` skips what is there (`1 == 1.0`); `$pull: 1` removes `1`, `True` and `1.0` -/
+example : okIs (pushValue (.arr [.int 1, .int 2, .int 3])
+        (.doc [("$each", .arr [.int 8, .int 9]), ("$position", .int (-1))]))
+      (.arr [.int 1, .int 2, .int 8, .int 9, .int 3]) = true ∧
+    okIs (pushValue (.arr [.int 1, .int 2]) (.doc [("$each", .arr [.int 3]), ("$slice", .int (-2))]))
+      (.arr [.int 2, .int 3]) = true ∧
+    okIs (addToSetValue (.arr [.int 1, .int 2]) (.doc [("$each", .arr [.dbl 1 0, .int 3, .int 2])]))
+      (.arr [.int 1, .int 2, .int 3]) = true ∧
+    okIs (pullAllValue (.arr [.int 1, .int 2, .int 1, .int 3]) (.arr [.int 1, .int 3]))
+      (.arr [.int 2]) = true ∧
+    (match pullList (.int 1) [.int 1, .bool true, .int 2, .dbl 2 1, .str "1"] with
+     | .ok r => Val.arr r == .arr [.int 2, .str "1"]
+     | .error _ => false) = true := by decide +kernel
+
+/-- replacement / frame group: a mixed operator update succeeds, touches exactly the addressed
+    top-level fields `c, e, a, d` and leaves `_id` and `z` alone -/
+example : okIs (applyUpdate .null
+        (.doc [("$rename", .doc [("c", .str "e")]), ("$pull", .doc [("a.b", .int 1)]),
+               ("$push", .doc [("d", .int 9)])]) .null false
+        (.doc [("_id", .int 1), ("a", .doc [("b", .arr [.int 1, .int 9])]), ("c", .int 9),
+               ("d", .arr [.int 1]), ("z", .int 0)]))
+      (.doc [("_id", .int 1), ("a", .doc [("b", .arr [.int 9])]), ("d", .arr [.int 1, .int 9]),
+             ("z", .int 0), ("e", .int 9)]) = true ∧
+    addressed [("$rename", .doc [("c", .str "e")]), ("$pull", .doc [("a.b", .int 1)]),
+               ("$push", .doc [("d", .int 9)])] = ["c", "e", "a", "d"] := by decide +kernel
+
+example : okIs (replaceWhole [("x", .int 1), ("y", .int 2)] (.doc [("_id", .int 5), ("x", .int 0)]))
+    (.doc [("_id", .int 5), ("x", .int 1), ("y", .int 2)]) = true := by decide +kernel
+
+/-- why `replace_spec` asks for `pyEq id id`: an `_id` holding a key twice is not `==` to itself
+    and the replacement is refused (`_id` "changed") -/
+example : pyEq (.doc [("a", .int 1), ("a", .int 2)]) (.doc [("a", .int 1), ("a", .int 2)]) = false ∧
+    (match replaceWhole [("x", .int 1)] (.doc [("_id", .doc [("a", .int 1), ("a", .int 2)])]) with
+     | .error .opFail => true
+     | _ => false) = true := by decide +kernel
+
+/-- server versions: an empty `$set` -/
+example : emptyOperatorCheck { preV5 := true } [("$set", .doc [])] = .error .writeErr ∧
+    emptyOperatorCheck { preV5 := false } [("$set", .doc [])] = .ok () := by decide +kernel
 
 end MongoModel.Props.C02
